@@ -864,7 +864,7 @@ def shards(tier):
            for i in range(NSHARDS)]
     # n = Hypothesis examples; each runs BATCH cases
     if tier == "quick":
-        out += [{"kind": "hyp", "i": i, "n": 800} for i in range(16)]
+        out += [{"kind": "hyp", "i": i, "n": 600} for i in range(16)]
     else:
         out += [{"kind": "hyp", "i": i, "n": 3000} for i in range(64)]
     return out
